@@ -84,7 +84,7 @@ struct L11 : Listener {
         if (k != "look") return;
         ++looks;
         long long fam = op.arg(0) < 0 ? -op.arg(0) : op.arg(0), cls = op.arg(1), kk = op.arg(2) < 0 ? -op.arg(2) : op.arg(2);
-        fam %= 14;
+        fam %= 15;
         const ezc3d::c3d &c = in.o();
         Snap s = takeSnap(c);
         const bool useSlot = (kk / 7) % 4 == 3;          // sometimes look into the caller's own (standalone) frame
@@ -319,6 +319,95 @@ struct L11 : Listener {
             ezc3d::DataNS::AnalogsNS::SubFrame sf; sf.channel(ch);
             Probe p2 = probe([&](Probe &P) { P.desc = std::to_string(sf.channelIdx(base)); });
             if (p2.threw || p2.desc != "0" || sf.channel(0).name() != base) { fail(i, "a channel named with trailing spaces is not stored/found under the trimmed name"); return; }
+            break; }
+        case 14: {  // containers built by the caller from known elements (names incl. case variants and repeats): every look-up against a list model
+            tag = "caller-built-containers";
+            Rng rg(static_cast<uint64_t>(kk) * 2654435761u + static_cast<uint64_t>(cls < 0 ? -cls : cls));
+            const std::string b0 = paramNameOf(kk % 15), b1 = paramNameOf((kk + 1) % 15);
+            std::string lo = b0; for (auto &ch : lo) if (ch >= 'A' && ch <= 'Z') ch = static_cast<char>(ch - 'A' + 'a');
+            std::string up = b0; for (auto &ch : up) if (ch >= 'a' && ch <= 'z') ch = static_cast<char>(ch - 'a' + 'A');
+            const std::vector<std::string> pool = {b0, b1, lo, up, "other", b0 + "x"};
+            const size_t nAdds = 2 + rg.below(7);
+            // (a) Group: add = replace the parameter of exactly that name in place, else append
+            {
+                ezc3d::ParametersNS::GroupNS::Group G("CALLER_GROUP");
+                std::vector<std::pair<std::string, int>> model;
+                for (size_t a = 0; a < nAdds; ++a) {
+                    const std::string nm = pool[rg.below(pool.size())]; const int val = static_cast<int>(a) + 1;
+                    ezc3d::ParametersNS::GroupNS::Parameter P(nm); P.set(std::vector<int>{val});
+                    G.parameter(P);
+                    bool rep = false; for (auto &m : model) if (m.first == nm) { m.second = val; rep = true; break; }
+                    if (!rep) model.push_back({nm, val});
+                    if (G.nbParameters() != model.size()) { fail(i, "a group built from " + std::to_string(a + 1) + " adds holds " + std::to_string(G.nbParameters()) + " parameters instead of " + std::to_string(model.size()) + " (names differing by letter case are different names)"); return; }
+                }
+                for (size_t j = 0; j < model.size(); ++j) {
+                    Probe pp = probe([&](Probe &Q) { const auto &E = static_cast<const ezc3d::ParametersNS::GroupNS::Group &>(G).parameter(j); Q.desc = q(E.name()) + std::to_string(E.valuesAsInt().at(0)); Q.addr = &E; });
+                    const std::string want = q(model[j].first) + std::to_string(model[j].second);
+                    if (pp.threw || pp.desc != want) { fail(i, "Group::parameter(" + std::to_string(j) + ") of a caller-built group returns " + (pp.threw ? pp.cls : pp.desc) + " instead of " + want); return; }
+                }
+                for (auto &nm : pool) {
+                    size_t first = SIZE_MAX; for (size_t j = 0; j < model.size(); ++j) if (model[j].first == nm) { first = j; break; }
+                    Probe pi = probe([&](Probe &Q) { Q.desc = std::to_string(G.parameterIdx(nm)); });
+                    Probe pn = probe([&](Probe &Q) { const auto &E = static_cast<const ezc3d::ParametersNS::GroupNS::Group &>(G).parameter(nm); Q.desc = q(E.name()) + std::to_string(E.valuesAsInt().at(0)); Q.addr = &E; });
+                    if (first == SIZE_MAX) {
+                        ++negative;
+                        if (!pi.threw || pi.cls != "invalid_argument" || !pn.threw || pn.cls != "invalid_argument") { fail(i, "caller-built group: look-up of the absent name " + q(nm) + " did not throw invalid_argument (" + (pi.threw ? pi.cls : pi.desc) + " / " + (pn.threw ? pn.cls : pn.desc) + ")"); return; }
+                    } else {
+                        const std::string want = q(model[first].first) + std::to_string(model[first].second);
+                        if (pi.threw || pi.desc != std::to_string(first)) { fail(i, "caller-built group: parameterIdx(" + q(nm) + ") gives " + (pi.threw ? pi.cls : pi.desc) + " instead of " + std::to_string(first)); return; }
+                        if (pn.threw || pn.desc != want || pn.addr != &static_cast<const ezc3d::ParametersNS::GroupNS::Group &>(G).parameter(first)) { fail(i, "caller-built group: parameter(" + q(nm) + ") gives " + (pn.threw ? pn.cls : pn.desc) + " instead of " + want); return; }
+                    }
+                }
+            }
+            // (b) Parameters: adding a group of a new name appends it; names differing by case are different groups
+            {
+                ezc3d::ParametersNS::Parameters PS; const size_t n0 = PS.nbGroups();
+                std::vector<std::string> model;
+                for (size_t a = 0; a < nAdds; ++a) {
+                    const std::string nm = pool[rg.below(pool.size())];
+                    ezc3d::ParametersNS::GroupNS::Group G(nm); ezc3d::ParametersNS::GroupNS::Parameter P("P" + std::to_string(a)); P.set(std::vector<int>{static_cast<int>(a)}); G.parameter(P);
+                    PS.group(G);
+                    if (std::find(model.begin(), model.end(), nm) == model.end()) model.push_back(nm);
+                    if (PS.nbGroups() != n0 + model.size()) { fail(i, "Parameters built by the caller holds " + std::to_string(PS.nbGroups() - n0) + " added groups instead of " + std::to_string(model.size())); return; }
+                }
+                for (auto &nm : pool) {
+                    size_t first = SIZE_MAX; for (size_t j = 0; j < model.size(); ++j) if (model[j] == nm) { first = j; break; }
+                    Probe pi = probe([&](Probe &Q) { Q.desc = std::to_string(PS.groupIdx(nm)); });
+                    Probe pn = probe([&](Probe &Q) { const auto &E = static_cast<const ezc3d::ParametersNS::Parameters &>(PS).group(nm); Q.desc = q(E.name()); Q.addr = &E; });
+                    if (first == SIZE_MAX) {
+                        ++negative;
+                        if (!pi.threw || pi.cls != "invalid_argument" || !pn.threw || pn.cls != "invalid_argument") { fail(i, "caller-built Parameters: look-up of the absent group " + q(nm) + " did not throw invalid_argument"); return; }
+                    } else {
+                        if (pi.threw || pi.desc != std::to_string(n0 + first)) { fail(i, "caller-built Parameters: groupIdx(" + q(nm) + ") gives " + (pi.threw ? pi.cls : pi.desc) + " instead of " + std::to_string(n0 + first)); return; }
+                        if (pn.threw || pn.desc != q(nm) || pn.addr != &static_cast<const ezc3d::ParametersNS::Parameters &>(PS).group(n0 + first)) { fail(i, "caller-built Parameters: group(" + q(nm) + ") gives " + (pn.threw ? pn.cls : pn.desc)); return; }
+                    }
+                }
+            }
+            // (c) Points and SubFrame: every add appends (repeated names stay; the first one is found)
+            {
+                ezc3d::DataNS::Points3dNS::Points PT; ezc3d::DataNS::AnalogsNS::SubFrame SF; std::vector<std::string> model;
+                for (size_t a = 0; a < nAdds; ++a) {
+                    const std::string nm = pool[rg.below(pool.size())];
+                    ezc3d::DataNS::Points3dNS::Point pt; pt.name(nm); pt.x(static_cast<float>(a)); PT.point(pt);
+                    ezc3d::DataNS::AnalogsNS::Channel ch; ch.name(nm); ch.data(static_cast<float>(a)); SF.channel(ch);
+                    model.push_back(nm);
+                }
+                const auto &CPT = PT; const auto &CSF = SF;
+                if (CPT.nbPoints() != model.size() || CSF.nbChannels() != model.size()) { fail(i, "caller-built Points/SubFrame do not hold one element per add"); return; }
+                for (auto &nm : pool) {
+                    size_t first = SIZE_MAX; for (size_t j = 0; j < model.size(); ++j) if (model[j] == nm) { first = j; break; }
+                    Probe p1 = probe([&](Probe &Q) { Q.desc = std::to_string(CPT.pointIdx(nm)); const auto &E = CPT.point(nm); Q.desc += "/" + std::to_string(static_cast<long long>(E.x())); Q.addr = &E; });
+                    Probe p2 = probe([&](Probe &Q) { Q.desc = std::to_string(CSF.channelIdx(nm)); const auto &E = CSF.channel(nm); Q.desc += "/" + std::to_string(static_cast<long long>(E.data())); Q.addr = &E; });
+                    if (first == SIZE_MAX) {
+                        ++negative;
+                        if (!p1.threw || p1.cls != "invalid_argument" || !p2.threw || p2.cls != "invalid_argument") { fail(i, "caller-built Points/SubFrame: look-up of the absent name " + q(nm) + " did not throw invalid_argument"); return; }
+                    } else {
+                        const std::string want = std::to_string(first) + "/" + std::to_string(first);
+                        if (p1.threw || p1.desc != want || p1.addr != &CPT.point(first)) { fail(i, "caller-built Points: look-up of " + q(nm) + " gives " + (p1.threw ? p1.cls : p1.desc) + " instead of " + want); return; }
+                        if (p2.threw || p2.desc != want || p2.addr != &CSF.channel(first)) { fail(i, "caller-built SubFrame: look-up of " + q(nm) + " gives " + (p2.threw ? p2.cls : p2.desc) + " instead of " + want); return; }
+                    }
+                }
+            }
             break; }
         }
         if (!tag.empty()) r.tags.insert(tag);
